@@ -666,7 +666,7 @@ func init() {
 	Register(&Engine{
 		ID:      "C09",
 		Anchors: []string{"node.go:applyMiddleware", "node.go:ApplyMiddleware", "router.go:Use", "group.go:Use", "router.go:Prefix", "router.go:Resource"},
-		Cases:   func(t string) int { return map[string]int{"quick": 4000, "thorough": 120000}[t] },
+		Cases:   func(t string) int { return map[string]int{"quick": 40000, "thorough": 1200000}[t] },
 		Run:     runC09,
 		Rule: "case = program of 10-30 calls interleaving Router.Use, Group.Use, Group.New/Add, registrations through Handle / Prefix / Prefix.Prefix / Resource / Prefix.Prefix.Resource with 0-3 uniquely named middlewares per level, and Remove; after every 7th call one request per handler kind (each method, HEAD, OPTIONS, 405, 404, OPTIONS *, TRACE, group 404) per pattern and router: executed chain (run-time trace) and per-layer factory arguments compared with the list model, factory invocation counts compared per call; " +
 			"non-trivial (distinct by program text) = program with a Use after a registration and facade nesting depth >= 2",
